@@ -12,10 +12,10 @@ sec14 = '''## 14. Seeded changes by independent sub-agents
 
 For each property a fresh sub-agent received only the property's JSON record and its own scratch worktree
 (nothing from `/verif`) and produced one change that breaks the property while compiling and passing the
-existing suite, with a demonstration. This was repeated in six rounds; from round 2 on the agent was also
+existing suite, with a demonstration. This was repeated in seven rounds; from round 2 on the agent was also
 told what the earlier changes for the same property were and had to differ from all of them in mechanism,
 location, clause, configuration or kind of trigger (round 5 only for the eleven properties whose round-4
-change had been missed, round 6 only for the six whose round-5 change had been missed). Each change was confirmed here with `tools/eval_seed.py` in a scratch worktree outside
+change had been missed, round 6 only for the six whose round-5 change had been missed, round 7 a further change for thirteen properties; the tables below are grouped by the number of the change per property). Each change was confirmed here with `tools/eval_seed.py` in a scratch worktree outside
 `/repo` and `/verif`: the patch applies, **all 487 stable baseline tests pass with it**
 (`tools/baseline_check.py`), the demonstration **fails with the change and passes without it**, and the
 property's check was run against the patched tree (`VERIF_REPO`, two quick runs with different seeds,
@@ -25,9 +25,9 @@ demonstration, `demo.txt`, `meta.json` with what was run and observed, `detected
 ever committed to `/repo`.
 
 **Result.** With the machinery as committed, the quick tier of the property's own check reports every one of
-the changes (`tools/redetect.py` re-runs all 97 of them; last runs: none missed). That is the *end* state: on
+the changes (`tools/redetect.py` re-runs all of them; last runs: none missed). That is the *end* state: on
 first contact the checks missed 3 of 20 changes in round 1, 7 of 20 in round 2, 12 of 20 in round 3, 11 of 20
-in round 4, 6 of 11 in round 5 and 4 of 6 in round 6 - the later rounds were aimed at whatever the earlier ones had left
+in round 4, 6 of 11 in round 5, 4 of 6 in round 6 and 8 of 13 in round 7 - the later rounds were aimed at whatever the earlier ones had left
 untouched. Every miss was closed by adding the missing dimension to the harness (never by loosening an
 oracle); section 12 lists each gap and what was added. The "reported by" column shows the signatures at the time
 of the seed's evaluation (after the strengthening it triggered).
